@@ -455,6 +455,15 @@ impl Program {
         Ok(Program { points, ops })
     }
 
+    /// some loop bound is so large that derivative closures of the terms are out of reach
+    pub fn has_huge_bound(&self) -> bool {
+        self.ops.iter().any(|op| match op {
+            Op::Exp(_, k) | Op::LoopInf(_, k) => *k > (1 << 20),
+            Op::SmtLoop(_, a, b) | Op::LoopFin(_, a, b) => *a > (1 << 20) || *b > (1 << 20),
+            _ => false,
+        })
+    }
+
     /// all characters mentioned (points plus op literals)
     pub fn all_points(&self) -> Vec<u32> {
         let mut v = self.points.clone();
@@ -920,6 +929,25 @@ impl<'a> Gen<'a> {
                 None => self.gen_atom(),
             },
         };
+        if self.rng.chance(1, 20) {
+            // (rare: every query on such a term runs into the derivative budget, ~0.4 s each)
+            // the largest finite upper bound next to the unbounded loop with the same lower bound, in both orders
+            let lo = self.rng.below(3) as u32;
+            let fin = if self.rng.chance(1, 2) { Op::SmtLoop(body, lo, u32::MAX) } else { Op::LoopFin(body, lo, u32::MAX) };
+            let inf = match lo {
+                0 if self.rng.chance(1, 2) => Op::Star(body),
+                1 if self.rng.chance(1, 2) => Op::Plus(body),
+                _ => Op::LoopInf(body, lo),
+            };
+            if self.rng.chance(1, 2) {
+                self.push(fin, Kind::Other);
+                self.push(inf, Kind::Other);
+            } else {
+                self.push(inf, Kind::Other);
+                self.push(fin, Kind::Other);
+            }
+            return;
+        }
         let mk = |g: &mut Self| -> usize {
             let lo = g.rng.below(4) as u32;
             let op = match g.rng.below(7) {
@@ -1309,4 +1337,61 @@ pub fn simple_pattern_program(items: &[usize]) -> Program {
     let idx: Vec<usize> = items.iter().map(|&k| simple_item(&mut ops, k % SIMPLE_ITEMS)).collect();
     ops.push(Op::ConcatList(idx));
     Program { points: vec![0x61, 0x62], ops }
+}
+
+/// Short programs around loops whose upper bound is (next to) u32::MAX: the same body looped twice, then
+/// concatenations, unions and outer loops of those loops (derivatives of such terms add and multiply the bounds)
+pub fn max_loop_program(rng: &mut Rng) -> Program {
+    let mut ops: Vec<Op> = Vec::new();
+    let body = match rng.below(3) {
+        0 => {
+            ops.push(Op::Char(0x61));
+            0
+        }
+        1 => {
+            ops.push(Op::Range(0x61, 0x62));
+            0
+        }
+        _ => {
+            ops.push(Op::Char(0x61));
+            ops.push(Op::Concat(0, 0));
+            ops.push(Op::Union(0, 1));
+            2
+        }
+    };
+    ops.push(Op::Char(0x63));
+    let other = ops.len() - 1;
+    let big = |rng: &mut Rng| -> u32 { *rng.pick(&[u32::MAX, u32::MAX, u32::MAX - 1, u32::MAX / 2 + 1, u32::MAX / 2]) };
+    let mut pool: Vec<usize> = Vec::new();
+    for _ in 0..2 {
+        let lo = rng.below(3) as u32;
+        let op = match rng.below(3) {
+            0 => Op::SmtLoop(body, lo, big(rng)),
+            1 => Op::LoopFin(body, lo, big(rng)),
+            _ => {
+                let hi = big(rng);
+                Op::LoopFin(body, hi - 3, hi)
+            }
+        };
+        ops.push(op);
+        pool.push(ops.len() - 1);
+    }
+    let steps = 3 + rng.usize(4);
+    for _ in 0..steps {
+        let x = *rng.pick(&pool);
+        let y = *rng.pick(&pool);
+        let op = match rng.below(10) {
+            0 | 1 | 2 => Op::Concat(x, y),
+            3 => Op::Union(x, other),
+            4 => Op::Concat(body, x),
+            5 => Op::Concat(x, body),
+            6 => Op::Exp(x, 2),
+            7 => Op::SmtLoop(x, rng.below(2) as u32, 2 + rng.below(2) as u32),
+            8 => Op::ConcatList(vec![x, y, x]),
+            _ => Op::Inter(x, y),
+        };
+        ops.push(op);
+        pool.push(ops.len() - 1);
+    }
+    Program { points: vec![0x61, 0x62, 0x63], ops }
 }
